@@ -22,6 +22,7 @@ Trees(d) ==
 
 Lazy(a) == N("pipe", "", <<N("iter", "", <<a>>), N("consume", "", <<>>)>>)
 Ty == N("typ", "", <<>>)
+Skp == N("skp", "", <<>>)
 Fates == IF Alien THEN {"ok", "err", "alien"} ELSE {"ok", "err"}
 \* a plan is canonical when it is exactly as long as the number of leaf executions it drives
 VARIABLES tree, plan, res, phase
@@ -56,6 +57,10 @@ PickTree ==
           \/ tree' = Lazy(a) \/ tree' = N("not", "", <<Lazy(a)>>)
           \/ \E k \in {"coal", "or", "and", "switch", "dict", "pipe"}, b \in Trees(SecondDepth) :
                 tree' = N(k, "", <<Lazy(a), b>>) \/ (k # "pipe" /\ tree' = N(k, "", <<b, Lazy(a)>>))
+     \* chains with a step that answers SKIP before the step that fails
+     \/ \E a \in Leafs, b \in Leafs, k \in {"tup", "pipe"} :
+          \/ tree' = N(k, "", <<Skp, a>>) \/ tree' = N(k, "", <<a, Skp, b>>)
+          \/ tree' = N("coal", "", <<N(k, "", <<Skp, a>>), b>>) \/ tree' = N(k, "", <<Skp, N("coal", "", <<a, b>>)>>)
      \* Match mode: plain types as alternatives of Or / And (each attempt is a scope of its own and a branch of the trace)
      \/ \E b \in Leafs \cup {Ty}, k \in {"or", "and"} :
           \/ tree' = N("match", "", <<N(k, "", <<Ty, b>>)>>) \/ tree' = N("match", "", <<N(k, "", <<b, Ty>>)>>)
